@@ -542,18 +542,32 @@ func (t *GenericTuple) MustGet(name string) Value {
 // given name, if present) with the addition of the given name/Value pair.
 func (t *GenericTuple) With(name string, value Value) Tuple {
 	// Strip view/non-view counterpart.
+	m := t.tuple
 	if strings.HasPrefix(name, "&") {
-		t = t.Without(name[1:]).(*GenericTuple)
+		m = m.Without(name[1:])
 	} else {
-		t = t.Without("&" + name).(*GenericTuple)
+		m = m.Without("&" + name)
 	}
-	return &GenericTuple{tuple: t.tuple.With(name, value)}
+	return canonicalTuple(m.With(name, value))
+}
+
+func canonicalTuple(m frozen.Map[string, Value]) Tuple {
+	if index, has := m.Get("@"); has && m.Count() == 2 {
+		for _, name := range []string{StringCharAttr, BytesByteAttr, ArrayItemAttr, DictValueAttr} {
+			if value, has := m.Get(name); has {
+				if t, ok := newSugarTuple(index, name, value); ok {
+					return t
+				}
+			}
+		}
+	}
+	return &GenericTuple{tuple: m}
 }
 
 // Without returns a Tuple with all name/Value pairs in t exception the one of
 // the given name.
 func (t *GenericTuple) Without(name string) Tuple {
-	return &GenericTuple{tuple: t.tuple.Without(name)}
+	return canonicalTuple(t.tuple.Without(name))
 }
 
 func (t *GenericTuple) Map(f func(Value) (Value, error)) (Tuple, error) {
